@@ -29,6 +29,9 @@ def archetypes():
     a['small-gex'] = dict(banner=b'SSH-2.0-Srv_1', kex=['diffie-hellman-group-exchange-sha256', 'curve25519-sha256'], key=['ssh-ed25519'], enc=['aes256-ctr'], mac=['hmac-sha2-256'], hostkeys={b'ssh-ed25519': ED}, gex=lambda mn, pf, mx: 1024 if mn <= 1024 <= mx else (mn if mn > 1024 else None))
     a['gex-2048'] = dict(banner=b'SSH-2.0-Srv_1', kex=['diffie-hellman-group-exchange-sha256'], key=['ssh-ed25519'], enc=['aes256-ctr'], mac=['hmac-sha2-256'], hostkeys={b'ssh-ed25519': ED}, gex=lambda mn, pf, mx: 2048 if mn <= 2048 <= mx else None)
     a['openssh-2048'] = dict(banner=b'SSH-2.0-OpenSSH_8.9', kex=['diffie-hellman-group-exchange-sha256'], key=['ssh-ed25519'], enc=['aes256-ctr'], mac=['hmac-sha2-256'], hostkeys={b'ssh-ed25519': ED}, gex=lambda mn, pf, mx: 2048 if mx >= 2048 else None)
+    # peers that offer a measurable algorithm but never yield a measurement: a size left behind by an earlier target would show on them
+    a['gex-refused'] = dict(banner=b'SSH-2.0-Srv_2', kex=['diffie-hellman-group-exchange-sha256', 'diffie-hellman-group-exchange-sha1', 'curve25519-sha256'], key=['ssh-ed25519'], enc=['aes256-ctr'], mac=['hmac-sha2-256'], hostkeys={b'ssh-ed25519': ED}, gex=lambda mn, pf, mx: None)
+    a['rsa-unprobed'] = dict(banner=b'SSH-2.0-OpenSSH_7.4', kex=['curve25519-sha256'], key=['rsa-sha2-512', 'ssh-rsa', 'ssh-ed25519-cert-v01@openssh.com'], enc=['aes256-ctr'], mac=['hmac-sha2-256'], hostkeys={})
     a['unknown-algs'] = dict(banner=b'SSH-2.0-Weird_0.1', kex=['curve25519-sha256', 'made-up-kex'], key=['ssh-ed25519'], enc=['aes256-ctr', 'made-up-cbc'], mac=['hmac-sha2-256', 'made-up-etm@openssh.com'], hostkeys={b'ssh-ed25519': ED})
     return a
 
@@ -117,6 +120,7 @@ def run(ctx):
     combos = list(itertools.permutations(names, 2))
     if q:
         combos = rng.sample(combos, 14)
+        combos += [c for c in (('small-gex', 'gex-refused'), ('openssh-2048', 'gex-refused'), ('small-rsa', 'rsa-unprobed'), ('small-ca', 'rsa-unprobed'), ('terrapin-enc', 'clean')) if c not in combos]
     else:
         combos = combos + rng.sample(list(itertools.permutations(names, 3)), 120)
     tmp = tempfile.mkdtemp(prefix='verif_c07_')
